@@ -274,7 +274,8 @@ def _selfcheck_rows():
 
 def render_key(spec, row, n):
     if isinstance(spec, (list, tuple)):
-        return ':'.join(str(n if k == '#' else row[k]) for k in spec)
+        # a list names the key fields: two rows have the same key iff they agree on every rendered part
+        return tuple(str(n if k == '#' else row[k]) for k in spec)
     return spec.format(**dict(row, **{'#': n}))
 
 
